@@ -10,6 +10,12 @@ S->I : (a) every system of MC_GenCoords is rendered as .top + .gro and read by t
            "build" residues are generated; ignored molecule types at every position of [ molecules ];
        (c) Walk schedules with supplied residues scripted into the real code (as in C17).
 I->S : the build traces of (b) are validated by WalkTrace (SuppliedKept, nothing but the status-changing rows moves).
+spec/SuppliedHist.tla : in-process HISTORIES - the file system (per path: content, number of rows = size, time stamp) and the process are
+                     state; every call of gen_coords / add_positions_from_file yields what the file under its path holds when the call is
+                     made (CallIsCurrent, SuppliedAreCurrent, CallsDoNotWrite, HistoryLaw, FsIsLastPut); four deviating processes refuted.
+S->I (h): exported histories (put / call) executed on the real code, one forked process per history, files of equal size with controlled
+          mtime, rewritten in place or replaced by rename; calls through the reader and through the whole program.
+I->S (h): seeded longer histories recorded and validated by SuppliedHistTrace (which takes the Put / Call actions of SuppliedHist).
 """
 import json
 import os
@@ -281,24 +287,573 @@ def ignore_cases():
     return res
 
 
+# ------------------------------------------------------------------ in-process histories (the file system and the process are state)
+#
+# spec/SuppliedHist.tla: one python process calls add_positions_from_file / gen_coords again and again while coordinate files are
+# put under the same few paths in between.  A file is [f, K, t]: frame f (content), K rows (= size: fixed-width format), stamp t (mtime).
+
+HF_MAX, HK_MAX = 8, 19
+
+
+def frame_xyz(f, i):
+    # distinct over all (frame, row), rows of one frame well separated, inside every frame's box, exact with 3 decimals
+    return (0.5 + 0.5 * (i % 20), 1.0 + 1.25 * f, 2.0 + 0.001 * i + 0.01 * f)
+
+
+def frame_box(f):
+    return BOX + 0.25 * f
+
+
+_HTABLE = {}
+
+
+def hmatch(pos, atol):
+    """(frame, row) whose position `pos` is, or None"""
+    if "t" not in _HTABLE:
+        keys = [(f, i) for f in range(1, HF_MAX + 1) for i in range(1, HK_MAX + 1)]
+        _HTABLE["k"], _HTABLE["t"] = keys, np.array([frame_xyz(f, i) for f, i in keys])
+    pos = np.asarray(pos, dtype=float)
+    if pos.shape != (3,) or not np.all(np.isfinite(pos)):
+        return None
+    hit = np.where(np.all(np.abs(_HTABLE["t"] - pos) <= atol, axis=1))[0]
+    return _HTABLE["k"][int(hit[0])] if len(hit) == 1 else None
+
+
+def hbox(box):
+    try:
+        box = np.asarray(box, dtype=float).reshape(-1)[:3]
+    except Exception:
+        return -1
+    for f in range(1, HF_MAX + 1):
+        if len(box) == 3 and np.allclose(box, [frame_box(f)] * 3, atol=1e-4):
+            return f
+    return -1
+
+
+def hgro_text(f, K):
+    # the same number of rows gives the same number of bytes, whatever the frame (fixed-width format, constant title)
+    rows = ["%5d%-5s%5s%5d%8.3f%8.3f%8.3f" % ((i, "SOL" if i % 2 else "X", "x", i) + frame_xyz(f, i)) for i in range(1, K + 1)]
+    b = frame_box(f)
+    return "rows\n%5d\n%s\n%10.5f%10.5f%10.5f\n" % (K, "\n".join(rows), b, b, b)
+
+
+def stamp_ns(t):
+    # stamps 2k and 2k+1 lie in the same second; equal stamps are equal to the nanosecond (cp -p, rsync -t, copy2 keep it)
+    return (1700000000 + 3 * (t // 2)) * 10 ** 9 + (t % 2) * 500000000
+
+
+def hput(path, f, K, t, how):
+    text, ns = hgro_text(f, K), stamp_ns(t)
+    if how == "replace":      # written elsewhere and moved into place (new inode)
+        tmp = path.with_name("new_" + path.name)
+        tmp.write_text(text)
+        os.utime(tmp, ns=(ns, ns))
+        os.replace(tmp, path)
+    else:                     # rewritten in place
+        path.write_text(text)
+        os.utime(path, ns=(ns, ns))
+
+
+def _hproject_topology(topology):
+    """result of add_positions_from_file in the vocabulary of SuppliedHist: per residue status / rows / frames; frame of the box"""
+    rs = []
+    for mm in topology.molecules:
+        for node in mm.nodes:
+            d = mm.nodes[node]
+            b, bm = d.get("build"), d.get("backmap")
+            status = {(True, True): "build", (False, True): "centre", (False, False): "given"}.get((b, bm), "flags %s/%s" % (b, bm))
+            hits = []
+            if status == "given":
+                idx = {a: mm.molecule.nodes[a]["index"] for a in d["graph"].nodes}
+                hits = [hmatch(mm.molecule.nodes[a].get("position", np.array([np.nan] * 3)), 1e-6) for a in sorted(idx, key=idx.get)]
+                if not all(hits):
+                    status = "given, but an atom carries a position that is in no coordinate file"
+                elif not np.allclose(d.get("position", np.array([np.nan] * 3)), np.mean([frame_xyz(*h) for h in hits], axis=0), atol=1e-9):
+                    status = "given, but the residue position is not the centre of its atoms"
+            elif status == "centre":
+                hits = [hmatch(d.get("position", np.array([np.nan] * 3)), 1e-6)]
+                if not all(hits):
+                    status = "centre, but at a position that is in no coordinate file"
+            elif status == "build" and "position" in d:
+                status = "build with a position attribute"
+            hits = [h for h in hits if h]
+            rs.append({"status": status, "rows": [h[1] for h in hits], "frames": [h[0] for h in hits]})
+    return rs
+
+
+def _hproject_output(opt, atoms, box):
+    """the same from the written structure: at atom level a residue is `given` if all its atoms are rows of a file and `build` if
+    none is; at residue level it is `centre` if its centre of geometry is a row and `build` if not"""
+    rs, k = [], 0
+    flat = [res for ml in opt["mols"] for res in ml]
+    if len(atoms) != sum(res["na"] for res in flat):
+        return None, "the output lists %d atoms, the topology has %d" % (len(atoms), sum(res["na"] for res in flat))
+    for res in flat:
+        pts = np.array([a[3] for a in atoms[k:k + res["na"]]])
+        k += res["na"]
+        if not np.all(np.isfinite(pts)):
+            rs.append({"status": "non-finite coordinate in the output", "rows": [], "frames": []})
+        elif opt["res"] == "mol":
+            hits = [hmatch(p, 1.1e-3) for p in pts]
+            if all(hits):
+                rs.append({"status": "given", "rows": [h[1] for h in hits], "frames": [h[0] for h in hits]})
+            elif not any(hits):
+                rs.append({"status": "build", "rows": [], "frames": []})
+            else:
+                rs.append({"status": "some atoms of the residue are file rows, others are not", "rows": [h[1] for h in hits if h], "frames": [h[0] for h in hits if h]})
+        else:
+            h = hmatch(pts.mean(axis=0), 2e-3)
+            rs.append({"status": "centre", "rows": [h[1]], "frames": [h[0]]} if h else {"status": "build", "rows": [], "frames": []})
+    return rs, None
+
+
+def _hcall(wd, path, oi, opt, level, rng):
+    """one call in the process of the history -> observed result"""
+    top = wd / ("s%d.top" % oi)
+    if not top.exists():
+        top.write_text(top_text(opt["mols"]))
+    before = (path.read_bytes(), os.stat(path).st_mtime_ns)
+    skip = [RN.get(x, x) for x in opt["skip"]]
+    res = {"walk": None}
+    if level == "read":
+        from polyply.src.topology import Topology
+        topology = Topology.from_gmx_topfile(name="c04", path=top)
+        topology.preprocess()
+        try:
+            topology.add_positions_from_file(path, skip_res=skip, resolution="mol" if opt["res"] == "mol" else "meta_mol")
+            res.update(err=False, box=hbox(topology.box), rs=_hproject_topology(topology))
+        except IOError:
+            res.update(err=True, box=0, rs=[])
+        except Exception as exc:
+            res.update(exc="%s: %s" % (type(exc).__name__, exc))
+    else:
+        from polyply import gen_coords
+        budget = {"n": rng.randint(0, 3)}
+
+        def chooser(kinds):
+            if budget["n"] > 0 and rng.random() < 0.35:
+                budget["n"] -= 1
+                return kinds[1]
+            return kinds[0]
+        out = wd / "out.gro"
+        kw = {"coordpath": path} if opt["res"] == "mol" else {"coordpath_meta": path}
+        np.random.seed(rng.randrange(2 ** 31))
+        random.seed(rng.randrange(2 ** 31))
+        with w.recording(chooser=chooser) as rec:
+            try:
+                gen_coords(toppath=top, outpath=out, name="c04", build_res=skip, ignore=[], max_force=1e12, **kw)
+                from vermouth.file_writer import DeferredFileWriter
+                DeferredFileWriter().write()
+                atoms, box = read_gro(out)
+                rs, bad = _hproject_output(opt, atoms, box)
+                if bad:
+                    res.update(exc=bad)
+                else:
+                    res.update(err=False, box=hbox(box), rs=rs)
+                if rec.header:
+                    res["walk"] = {"inst": rec.header, "evs": rec.events}
+            except _Timeout:
+                res.update(noverdict="timeout")
+            except w.NoVerdict as exc:
+                res.update(noverdict=str(exc))
+            except IOError:
+                res.update(err=True, box=0, rs=[])
+            except Exception as exc:
+                res.update(exc="%s: %s" % (type(exc).__name__, exc))
+    res["intact"] = (path.read_bytes(), os.stat(path).st_mtime_ns) == before
+    return res
+
+
+def _in_own_process(func, *args):
+    """func(*args) in a forked child: a history is what ONE process does from its start; whatever the code under test keeps for the
+    life of a process starts empty and ends with the history.  The result comes back as JSON through a pipe."""
+    r, wfd = os.pipe()
+    pid = os.fork()
+    if pid == 0:
+        code = 1
+        try:
+            os.close(r)
+            try:
+                payload = json.dumps({"ok": func(*args)})
+            except BaseException as exc:
+                import traceback
+                payload = json.dumps({"error": "%s: %s\n%s" % (type(exc).__name__, exc, traceback.format_exc()[-1500:])})
+            with os.fdopen(wfd, "w") as f:
+                f.write(payload)
+            code = 0
+        finally:
+            os._exit(code)
+    os.close(wfd)
+    with os.fdopen(r) as f:
+        data = f.read()
+    os.waitpid(pid, 0)
+    if not data:
+        raise c.MachineryError("the process of a history ended without a result")
+    doc = json.loads(data)
+    if "error" in doc:
+        raise c.MachineryError("driver failed inside the process of a history: %s" % doc["error"])
+    return doc["ok"]
+
+
+def _hist_body(h):
+    """h = {id, opts, ops: [put | call (+ level)], seed, how}: executed from the start of a process in one directory; -> the observed
+    result of every operation (None for a put); stops at a call without verdict"""
+    import shutil
+    rng = random.Random(h["seed"])
+    wd = c.WORK / "C04" / "hist" / str(h["id"])
+    shutil.rmtree(wd, ignore_errors=True)
+    wd.mkdir(parents=True)
+    signal.signal(signal.SIGALRM, _alarm)
+    signal.setitimer(signal.ITIMER_REAL, 240, 5)
+    outs = []
+    try:
+        for k, op in enumerate(h["ops"]):
+            path = wd / (op["path"] + ".gro")
+            if op["op"] == "put":
+                hput(path, op["f"], op["K"], op["t"], h["how"][k % len(h["how"])])
+                outs.append(None)
+            else:
+                outs.append(_hcall(wd, path, op["o"], h["opts"][op["o"] - 1], op.get("level", "read"), rng))
+                if "noverdict" in outs[-1]:
+                    break
+    except _Timeout:
+        outs.append({"noverdict": "timeout", "walk": None})
+    finally:
+        signal.setitimer(signal.ITIMER_REAL, 0)
+        shutil.rmtree(wd, ignore_errors=True)
+    return outs
+
+
+def _hist_one(h):
+    # the code under test is loaded before the process of the history is forked (loading it is not part of a history)
+    import polyply
+    import polyply.src.topology
+    import polyply.src.build_system
+    import vermouth.file_writer
+    return _in_own_process(_hist_body, h)
+
+
+def _opstr(op):
+    if op["op"] == "put":
+        return "put(%s: frame %d, %d rows, stamp %d)" % (op["path"], op["f"], op["K"], op["t"])
+    return "%s(%s, options %d)" % ({"e2e": "gen_coords", "read": "add_positions_from_file"}.get(op.get("level"), "call"), op["path"], op["o"])
+
+
+def _collides(ops):
+    """the history calls on a file after an earlier call on a file of other content with the same number of rows (= the same size) -
+    3: under the same path and with the same time stamp; 2: same path, another stamp; 1: under another path; 0: no such call"""
+    best, called, cur = 0, set(), {}
+    for op in ops:
+        p = op["path"]
+        if op["op"] == "put":
+            cur[p] = (op["f"], op["K"], op["t"])
+        else:
+            for q, f, K, t in called:
+                if f != cur[p][0] and K == cur[p][1]:
+                    best = max(best, (3 if t == cur[p][2] else 2) if q == p else 1)
+            called.add((p,) + cur[p])
+    return best
+
+
+def hcompare(exp, got):
+    """expected (TLC) vs observed result of one call -> None | text"""
+    if got.get("exc"):
+        return "the call raised %s" % got["exc"]
+    if not got["intact"]:
+        return "the call changed its input file (bytes or time stamp)"
+    if bool(exp["err"]) != bool(got["err"]):
+        return "an incomplete residue was accepted" if exp["err"] else "IOError although the current file is sufficient"
+    if exp["err"]:
+        return None
+    ers = [{"status": r["status"], "rows": list(r["rows"]), "frames": list(r["frames"])} for r in exp["rs"]]
+    if got["rs"] != ers:
+        k = next(i for i in range(max(len(ers), len(got["rs"]))) if i >= len(ers) or i >= len(got["rs"]) or ers[i] != got["rs"][i])
+        return "residue %d: observed %s, the file the path holds now gives %s" % (
+            k + 1, got["rs"][k] if k < len(got["rs"]) else None, ers[k] if k < len(ers) else None)
+    if got["box"] != exp["box"]:
+        return "the box is that of frame %s, the file the path holds now is frame %s" % (got["box"], exp["box"])
+    return None
+
+
+def history_replay(ck, res, tier, rng, sd):
+    """S->I: histories exported by SuppliedHist executed on the real code, one process per history"""
+    opts = res.tagged("HOPTS")
+    hists = res.tagged("HIST")
+    ck.require(opts and len(hists) > 1000, "SuppliedHist exported %d option tables / %d histories" % (len(opts), len(hists)))
+    opts = opts[0]
+    key = {json.dumps(h, sort_keys=True): h for h in hists}
+    hists = [key[k] for k in sorted(key)]
+    cls = {0: [], 1: [], 2: [], 3: []}
+    for h in hists:
+        cls[_collides(h)].append(h)
+    ck.extra["histories_exported"] = len(hists)
+    ck.extra["histories_calling_again_on_other_content_of_the_same_size (same path+stamp / same path / other path)"] = [len(cls[3]), len(cls[2]), len(cls[1])]
+    ck.require(len(cls[3]) >= 10 and len(cls[2]) >= 10 and len(cls[1]) >= 50,
+               "too few exported histories call again on other content of the same size: %s" % [len(cls[3]), len(cls[2]), len(cls[1])])
+    for v in cls.values():
+        rng.shuffle(v)
+    if tier == "quick":
+        nread, ne2e = 260, 24
+        todo = cls[3] + cls[2] + cls[1][:nread // 3]
+        todo += cls[0][:nread - len(todo)]
+    else:
+        ne2e = 240
+        todo = list(hists)
+    noerr = lambda h: not any(op["op"] == "call" and op["res"]["err"] for op in h)
+    same, other = [h for h in cls[3] + cls[2] if noerr(h)], [h for h in cls[1] if noerr(h)]
+    e2e = same[:2 * ne2e // 3]
+    e2e += other[:ne2e - len(e2e)]
+    e2e += [h for h in cls[0] if noerr(h)][:ne2e - len(e2e)]
+    jobs = []
+    for i, h in enumerate(todo):
+        jobs.append({"id": "r%d" % i, "opts": opts, "ops": [dict(op, level="read") for op in h], "seed": sd * 100000 + i,
+                     "how": ["write", "replace"] if i % 2 else ["write"]})
+    for i, h in enumerate(e2e):
+        # calls alternate between the whole program and the reader (the process state is shared by both)
+        lv = ["e2e", "read", "e2e"] if i % 3 == 0 else ["e2e"]
+        ops, n = [], 0
+        for op in h:
+            if op["op"] == "call":
+                ops.append(dict(op, level=lv[n % len(lv)]))
+                n += 1
+            else:
+                ops.append(dict(op))
+        jobs.append({"id": "e%d" % i, "opts": opts, "ops": ops, "seed": sd * 100000 + 50000 + i, "how": ["replace", "write"] if i % 2 else ["write"]})
+    outs = c.pmap(_hist_one, jobs, chunksize=4)
+    walks, nov, ncalls, nagain = [], 0, {"read": 0, "e2e": 0}, 0
+    for job, out in zip(jobs, outs):
+        ck.replayed += 1
+        ck.count("hist:" + json.dumps([job["ops"], job["how"]], sort_keys=True))
+        nagain += 1 if _collides(job["ops"]) else 0
+        for k, (op, got) in enumerate(zip(job["ops"], out)):
+            ck.actions["history:" + op["op"]] = ck.actions.get("history:" + op["op"], 0) + 1
+            if got is None:
+                continue
+            if "noverdict" in got:
+                nov += 1
+                break
+            ncalls[op["level"]] += 1
+            if got.get("walk"):
+                walks.append(got["walk"])
+            bad = hcompare(op["res"], got)
+            if bad:
+                ck.violation({"kind": "history", "job": job, "step": k, "detail": bad},
+                             what="in-process history %s: operation %d: %s" % (" ; ".join(_opstr(o) for o in job["ops"][:k + 1]), k + 1, bad))
+                break
+    ck.extra["histories_replayed"] = len(jobs)
+    ck.extra["history_calls (reader / whole program)"] = [ncalls["read"], ncalls["e2e"]]
+    ck.extra["histories_replayed_calling_again_after_same_size_rewrite"] = nagain
+    ck.extra["history_calls_without_verdict"] = nov
+    ck.require(ncalls["e2e"] >= len(e2e) >= min(ne2e, 30) and nagain >= min(100, len(jobs) // 3), "the replayed histories hardly call a path again after a same-size rewrite (%d) / hardly run gen_coords (%d)" % (nagain, ncalls["e2e"]))
+    ck.sample({"history (S->I)": [_opstr(o) for o in e2e[0]] if e2e else None, "options by index": opts})
+    return walks
+
+
+# options of the recorded histories (beyond the exhaustive instance: more molecules, longer chains, more paths, frames, stamps, rows)
+_X = [{"rn": "A", "na": 1}]
+_Y = [{"rn": "A", "na": 2}, {"rn": "B", "na": 1}]
+_Z = [{"rn": "B", "na": 2}, {"rn": "A", "na": 1}, {"rn": "B", "na": 2}]
+_C = [{"rn": "A", "na": 2}, {"rn": "B", "na": 1}, {"rn": "A", "na": 2}, {"rn": "B", "na": 1}]
+TOPTS = [{"mols": [_Z], "skip": [], "res": "mol"}, {"mols": [_Z], "skip": ["A"], "res": "mol"}, {"mols": [_Y, _X], "skip": [], "res": "meta"},
+         {"mols": [_Y, _Z, _X], "skip": [], "res": "mol"}, {"mols": [_X, _Y, _Y], "skip": ["B"], "res": "mol"},
+         {"mols": [_Z, _Z], "skip": [], "res": "meta"}, {"mols": [_Y, _Z], "skip": ["A"], "res": "meta"}, {"mols": [_C, _C], "skip": [], "res": "mol"}]
+
+
+def _opt_limit(opt):
+    return sum(r["na"] for ml in opt["mols"] for r in ml) if opt["res"] == "mol" else sum(len(ml) for ml in opt["mols"])
+
+
+def hist_trace_job(seed):
+    """I->S: a seeded history of 9-14 operations on 2-3 paths; a put often keeps the number of rows and the stamp of the file it replaces"""
+    rng = random.Random(seed)
+    paths = ["P1", "P2", "P3"][:rng.choice([2, 3])]
+    n = rng.randint(9, 14)
+    cur, ops, called = {}, [], {}
+    while len(ops) < n:
+        if not cur or rng.random() < 0.45:
+            p = rng.choice(paths)
+            if p in cur and rng.random() < 0.7:
+                K, t = cur[p][1], cur[p][2] if rng.random() < 0.7 else rng.randint(0, 5)
+            else:
+                K, t = rng.randint(1, 9), rng.randint(0, 5)
+            f = rng.choice([x for x in range(1, 7) if p not in cur or x != cur[p][0]])
+            cur[p] = (f, K, t)
+            ops.append({"op": "put", "path": p, "f": f, "K": K, "t": t})
+        else:
+            # preferably a path that was called before and holds another file now
+            again = [q for q in sorted(cur) if q in called and called[q] != cur[q]]
+            p = rng.choice(again) if again and rng.random() < 0.75 else rng.choice(sorted(cur))
+            called[p] = cur[p]
+            ok = [i + 1 for i, o in enumerate(TOPTS) if _opt_limit(o) >= cur[p][1]]
+            ops.append({"op": "call", "path": p, "o": rng.choice(ok), "level": "e2e" if rng.random() < 0.2 else "read"})
+    return {"id": "t%d" % seed, "opts": TOPTS, "ops": ops, "seed": seed, "how": [rng.choice(["write", "replace"]) for _ in range(5)]}
+
+
+def trace_of(job, out):
+    """recorded history -> events for SuppliedHistTrace (None: no verdict); the history ends before a call without verdict"""
+    evs = []
+    for op, got in zip(job["ops"], out):
+        if got is None:
+            evs.append({k: op[k] for k in ("op", "path", "f", "K", "t")})
+        elif "noverdict" in got:
+            break
+        elif got.get("exc"):
+            return evs, got["exc"]
+        else:
+            evs.append({"op": "call", "path": op["path"], "o": op["o"], "level": op["level"], "err": bool(got["err"]), "box": got["box"],
+                        "rs": got["rs"], "intact": bool(got["intact"])})
+    return evs, None
+
+
+def validate_hist(traces, name):
+    wd = c.workdir("C04", name)
+    f = wd / "hist_traces.json"
+    f.write_text(json.dumps({"opts": TOPTS, "traces": traces}))
+    res = c.tlc("SuppliedHistTrace", "SH_trace.cfg", workers=1, env={"TRACE_FILE": str(f)}, check=False, timeout=3000)
+    rej = res.tagged("REJECTED")
+    if res.inv_violated or (res.rc != 0 and not rej):
+        raise c.MachineryError("SuppliedHistTrace failed: %s" % res.out[-2500:])
+    rejected = {}
+    for r in rej:
+        rejected.update({int(t): int(m) for t, m in r})
+    return res, rejected
+
+
+def history_traces_run(tier, sd):
+    n = 18 if tier == "quick" else 200
+    jobs = [hist_trace_job(sd * 100000 + 70000 + k) for k in range(n)]
+    return jobs, c.pmap(_hist_one, jobs)
+
+
+def history_traces_judge(ck, jobs, outs):
+    """validate the recorded histories with SuppliedHistTrace; one corrupted copy must be rejected (binding demonstration)"""
+    traces, seeds, walks, again, ne2e = [], [], [], 0, 0
+    for job, out in zip(jobs, outs):
+        evs, exc = trace_of(job, out)
+        for got in out:
+            if got and got.get("walk"):
+                walks.append(got["walk"])
+        if exc:
+            k = len(evs)
+            ck.violation({"kind": "history trace", "seed": job["seed"], "job": job, "step": k, "detail": exc},
+                         what="in-process history (seed %d) %s: operation %d raised %s" % (job["seed"], " ; ".join(_opstr(o) for o in job["ops"][:k + 1]), k + 1, exc))
+            continue
+        if sum(1 for e in evs if e["op"] == "call") < 2:
+            continue
+        traces.append(evs)
+        seeds.append(job)
+        again += 1 if _collides_trace(evs) else 0
+        ne2e += sum(1 for e in evs if e["op"] == "call" and e["level"] == "e2e")
+    # binding demonstration: in a copy of a recorded history, a call after a same-size rewrite reports the rows of the frame before
+    corrupt = None
+    for evs in traces:
+        corrupt = _corrupted(evs)
+        if corrupt:
+            break
+    ck.require(corrupt is not None, "no recorded history calls a path again after a same-size rewrite")
+    from concurrent.futures import ThreadPoolExecutor
+    fut = ThreadPoolExecutor(1).submit(validate_hist, traces + [corrupt[0]], "hist_traces")      # runs beside stage (b)
+
+    def finish():
+        return _history_traces_finish(ck, jobs, traces, seeds, corrupt, again, ne2e, fut)
+    return walks, finish
+
+
+def _history_traces_finish(ck, jobs, traces, seeds, corrupt, again, ne2e, fut):
+    res, rejected = fut.result()
+    ck.add_tlc(res)
+    ck.require(rejected.get(len(traces) + 1) == corrupt[1], "SuppliedHistTrace accepted a history in which a call reports the rows of the "
+               "previous file (binding demonstration): %s" % rejected)
+    rejected.pop(len(traces) + 1, None)
+    ck.traces += len(traces) - len(rejected)
+    ck.evaluations += len(traces)
+    for i, evs in enumerate(traces):
+        ck.nontrivial.add("histtrace:%d" % seeds[i]["seed"])
+        for e in evs:
+            ck.actions["histtrace:" + e["op"]] = ck.actions.get("histtrace:" + e["op"], 0) + 1
+    for tid, matched in sorted(rejected.items()):
+        job, evs = seeds[tid - 1], traces[tid - 1]
+        nxt = evs[matched] if matched < len(evs) else None
+        ck.violation({"kind": "history trace", "seed": job["seed"], "job": job, "step": matched, "trace": evs[:matched + 1]},
+                     what="in-process history (seed %d) rejected by SuppliedHist at operation %d: %s ; observed %s" % (
+                         job["seed"], matched + 1, " ; ".join(_opstr(o) for o in job["ops"][:matched + 1]), json.dumps(nxt)[:500]))
+    ck.extra["history_traces"] = len(traces)
+    ck.extra["history_traces_calling_again_after_same_size_rewrite"] = again
+    ck.extra["history_trace_gen_coords_calls"] = ne2e
+    ck.require(again >= len(jobs) // 4 and ne2e >= len(jobs) // 2, "the recorded histories hardly ever call a path again after a same-size rewrite (%d) / "
+               "hardly run gen_coords (%d)" % (again, ne2e))
+    if traces:
+        ck.sample({"recorded history (I->S)": [_opstr(e) for e in traces[0]]})
+
+
+def _collides_trace(evs):
+    return _collides(evs)
+
+
+def _corrupted(evs):
+    """copy of the history in which the first call after a same-size rewrite reports the frame the path held before -> (events, index)"""
+    cur, called = {}, {}
+    for k, e in enumerate(evs):
+        p = e["path"]
+        if e["op"] == "put":
+            cur[p] = (e["f"], e["K"])
+        elif not e["err"]:
+            old = [f for f, K in called.get(p, ()) if f != cur[p][0] and K == cur[p][1]]
+            if old and any(r["frames"] for r in e["rs"]):
+                bad = json.loads(json.dumps(evs))
+                for r in bad[k]["rs"]:
+                    r["frames"] = [old[0]] * len(r["frames"])
+                bad[k]["box"] = old[0]
+                return bad, k
+            called.setdefault(p, set()).add(cur[p])
+    return None
+
+
 def run(tier):
     ck = c.Check("C04", tier)
     sd = c.seed()
     rng = random.Random(sd)
     ck.rule = ("(a) all systems of MC_GenCoords (<=3 molecules of 3 types, residues of 1-2 atoms, every file length, -res subsets, atom- and "
                "residue-level files) read by the real add_positions_from_file; (b) stratified subset + ignore orders through gen_coords under a random "
-               "failure schedule; (c) Walk schedules with supplied residues; distinct = rendered input")
+               "failure schedule; (c) Walk schedules with supplied residues; (h) in-process histories of SuppliedHist (2 paths x 2 frames x 2 sizes x 2 stamps, "
+               "3 option sets, 4 operations): all with a call on other content of the same size after an earlier call + a sample of the rest through "
+               "the reader, a subset through gen_coords, one process each; seeded recorded histories of 9-14 operations; distinct = rendered input / history")
     ck.assumptions = ["coordinates are compared at .gro precision (1e-3 nm; 2e-3 nm for the centre of a backmapped residue)",
-                      "one coordinate file per run (-c or -mc); ignored molecule types are fully supplied"]
+                      "one coordinate file per call (-c or -mc); ignored molecule types are fully supplied",
+                      "histories: file content is identified by its coordinates (frames); size and mtime of the rendered files are set by the harness "
+                      "(os.utime), no wall-clock value enters a verdict"]
     ck.stage("TLC: GenCoords + Walk models")
-    gc, dev, small, d1 = c.tlc_many([("MC_GenCoords", "GC_small.cfg", {"workers": 6}),
-                                     ("MC_GenCoords", "GC_dev_skip.cfg", {"check": False, "workers": 2}),
-                                     ("MC_Walk", "Walk_small.cfg" if tier == "quick" else "Walk_deep.cfg", {"workers": 4}),
-                                     ("MC_Walk", "Walk_dev_retryall.cfg", {"check": False, "workers": 1})])
+    hdevs = {"cacheByStat": ("CallIsCurrent", "parsed coordinate files are remembered under (path, size, time stamp)"),
+             "cacheByPath": ("CallIsCurrent", "parsed coordinate files are remembered under their path"),
+             "bufferReused": ("CallIsCurrent", "the row buffer of the previous call is reused"),
+             "callRestamps": ("FsIsLastPut", "a call touches its input file")}
+    gc, dev, small, d1, hsmall, hexp, ex = c.tlc_many(
+        [("MC_GenCoords", "GC_small.cfg", {"workers": 4}),
+         ("MC_GenCoords", "GC_dev_skip.cfg", {"check": False, "workers": 1}),
+         ("MC_Walk", "Walk_small.cfg" if tier == "quick" else "Walk_deep.cfg", {"workers": 3}),
+         ("MC_Walk", "Walk_dev_retryall.cfg", {"check": False, "workers": 1}),
+         ("MC_SuppliedHist", "SH_small.cfg", {"workers": 2}),
+         ("MC_SuppliedHist", "SH_export.cfg", {"workers": 1}),
+         ("WalkExport", "Walk_export.cfg", {"workers": 3})])
     ck.model_must_hold(gc, "LoopIsDeclarative/RowsDisjoint/RowsPrefix/OnlyMissingBuilt")
     ck.model_must_refute(dev, "LoopIsDeclarative", "residues named for rebuilding consume rows (-res ignored)")
     ck.model_must_hold(small, "SuppliedKept/AcceptedStable under all failure schedules")
     ck.model_must_refute(d1, "SuppliedKept", "a failed attempt removes supplied positions (F5)")
+    ck.model_must_hold(hsmall, "CallIsCurrent/SuppliedAreCurrent/CallsDoNotWrite on the complete state graph of the process (no bound on the history)")
+    # the bounded instance also starts the four deviating processes: TLC prints the first reachable law-breaking state of each (its hist
+    # is the counterexample history) and the postcondition of the run requires that every deviation was refuted
+    wit = {x["dev"]: x for x in hexp.tagged("WITNESS")}
+    if hexp.tagged("UNREFUTED"):
+        raise c.MachineryError("sensitivity (MC_SuppliedHist/SH_export.cfg): deviations not refuted: %s" % hexp.tagged("UNREFUTED"))
+    ck.model_must_hold(hexp, "HistoryLaw/CallIsCurrent/FsIsLastPut on all histories of 4 operations of the intended process")
+    if set(wit) != set(hdevs):
+        raise c.MachineryError("sensitivity (MC_SuppliedHist/SH_export.cfg): no counterexample for %s" % sorted(set(hdevs) - set(wit)))
+    for d, (inv, what) in hdevs.items():
+        if wit[d]["holds"][inv]:
+            raise c.MachineryError("sensitivity (SH_export.cfg): deviation %s (%s) does not break %s" % (d, what, inv))
+    ck.tlc_runs[-1]["deviations_refuted_in_this_run"] = ["%s (%s)" % (d, hdevs[d][0]) for d in sorted(wit)]
+    ck.extra["history_deviations_refuted"] = {d: {"what": hdevs[d][1], "breaks": sorted(k for k, v in wit[d]["holds"].items() if not v),
+                                                  "counterexample": [_opstr(o) for o in wit[d]["hist"]]} for d in sorted(wit)}
     cases = gc.cases()
     ck.require(len(cases) > 500, "too few GenCoords cases exported: %d" % len(cases))
     ck.stage("S->I (a): coordinate consumption on %d systems" % len(cases))
@@ -319,6 +874,12 @@ def run(tier):
             ck.violation({"kind": "consume", "case": cs}, what="add_positions_from_file on %s: %s" % (
                 json.dumps({"molecules": cs["mols"], "rows": cs["K"], "res": sorted(cs["skip"]), "level": cs["res"]}), msg))
     ck.sample({"consumption case": cases[len(cases) // 2]})
+    ck.stage("S->I (h): in-process histories (files rewritten between calls) on the real code")
+    hwalks = history_replay(ck, hexp, tier, rng, sd)
+    ck.stage("I->S (h): recorded in-process histories")
+    hjobs, houts = history_traces_run(tier, sd)
+    w2, hist_finish = history_traces_judge(ck, hjobs, houts)
+    hwalks += w2
     ck.stage("S->I (b): end to end through gen_coords")
     n = 28 if tier == "quick" else 220
     picked = [(cs, sd * 1000 + i, []) for i, cs in enumerate(select_e2e(cases, rng, n))]
@@ -343,16 +904,20 @@ def run(tier):
             traces.append({"inst": out["inst"], "evs": out["evs"]})
             for e in out["evs"]:
                 ck.actions["trace:" + e["ev"]] = ck.actions.get("trace:" + e["ev"], 0) + 1
+    traces += hwalks          # the builds inside the histories
+    for tr in hwalks:
+        for e in tr["evs"]:
+            ck.actions["trace:" + e["ev"]] = ck.actions.get("trace:" + e["ev"], 0) + 1
     ck.extra["no_verdict_runs"] = nov
     ck.extra["e2e_runs"] = len(picked) - nov
     ck.require(len(picked) - nov >= 0.8 * len(picked), "too many gen_coords runs without verdict: %d of %d" % (nov, len(picked)))
-    ck.stage("I->S: build traces of the end-to-end runs")
+    ck.stage("I->S: recorded histories (SuppliedHistTrace), build traces of the end-to-end runs (WalkTrace)")
+    hist_finish()
     if traces:
         c17.validate(ck, traces, "e2e")
         ck.sample({"e2e trace events": [e["ev"] for e in traces[0]["evs"]][:30], "instance": traces[0]["inst"]})
     ck.require(ck.actions.get("trace:cleanup") and ck.actions.get("trace:fail"), "the end-to-end runs contain no failed attempt (vacuous for the failure clause)")
     ck.stage("S->I (c): Walk schedules with supplied residues")
-    ex = c.tlc("WalkExport", "Walk_export.cfg", workers=6)
     ck.model_must_hold(ex, "export")
     sup = [x for x in ex.cases() if any(x["inst"]["attr"])]
     if tier == "quick":
@@ -375,4 +940,19 @@ def replay(path):
         bad = out.get("error_in_code") or compare_e2e(case["case"], out)
         print("replayed:", bad or "no violation")
         return 1 if bad else 0
+    if case["kind"] == "history":
+        job, k = case["job"], case["step"]
+        out = _hist_one(job)
+        bad = hcompare(job["ops"][k]["res"], out[k]) if k < len(out) and out[k] and "noverdict" not in out[k] else "no verdict"
+        print("replayed history %s: operation %d: %s" % (" ; ".join(_opstr(o) for o in job["ops"][:k + 1]), k + 1, bad or "no violation"))
+        return 1 if bad and bad != "no verdict" else 0
+    if case["kind"] == "history trace":
+        job = case["job"]
+        evs, exc = trace_of(job, _hist_one(job))
+        if exc:
+            print("replayed history: raised %s" % exc)
+            return 1
+        res, rejected = validate_hist([evs], "replay_hist")
+        print("replayed history (seed %d): %s" % (job["seed"], ("rejected after %d operations" % rejected[1]) if rejected else "accepted"))
+        return 1 if rejected else 0
     return c17.replay(path)
